@@ -564,6 +564,8 @@ ADAPTORS = {
     # iterators
     "std::iter::Iterator::map": {"f": 1, "params": {2: [(0, ("$item",))]}, "result": [("ret", ("$item",), ())],
                                  "fnitem_result": [(0, ("$item",), ("$item",))]},
+    # flat_map(f): the closure sees the items of the receiver; the result's items are the items of what the closure returns
+    "std::iter::Iterator::flat_map": {"f": 1, "params": {2: [(0, ("$item",))]}, "result": [("ret", ("$item",), ("$item",))]},
     "std::iter::Iterator::filter": {"f": 1, "params": {2: [(0, ("$item",))]}, "result": [(0, ("$item",), ("$item",))]},
     "std::iter::Iterator::filter_map": {"f": 1, "params": {2: [(0, ("$item",))]}, "result": [("ret", ("$item",), ())]},
     "std::iter::Iterator::inspect": {"f": 1, "params": {2: [(0, ("$item",))]}, "result": [(0, ("$item",), ("$item",))]},
